@@ -4,6 +4,7 @@ package main
 
 import (
 	"fmt"
+	"strconv"
 	"go/ast"
 	"go/token"
 	"go/types"
@@ -38,6 +39,7 @@ type Engine struct {
 	verbose          bool
 	overlay          map[string][]byte
 	typeIDs          map[string]int64
+	typeObjs         []types.Type
 }
 
 func NewEngine(repo, tags string) *Engine {
@@ -192,7 +194,13 @@ func (e *Engine) globalVals(fx *FuncCtx, key string, vr *types.Var) (Val, bool) 
 	if v, ok := fx.globals[key]; ok {
 		return v, true
 	}
+	n0 := len(fx.decls)
 	v, facts := fx.freshVal(key, vr.Type())
+	// declarations of package-level values are permanent (not rolled back by Houdini snapshots)
+	for _, d := range fx.decls[n0:] {
+		fx.permDecls = append(fx.permDecls, d)
+	}
+	fx.decls = fx.decls[:n0]
 	fx.globals[key] = v
 	fx.globalFacts = append(fx.globalFacts, facts...)
 	return v, true
@@ -398,6 +406,11 @@ func (e *Engine) VerifyFunc(key string, oblTimeoutMs int) *FuncResult {
 	res.CoverFail = fx.coverFail
 	if res.Unsupported == "" {
 		res.Obls = fx.obls
+		if t := con.Options["timeout"]; t != "" {
+			if n, err := strconv.Atoi(t); err == nil && n > oblTimeoutMs {
+				oblTimeoutMs = n
+			}
+		}
 		dischargeAll(fx.obls, oblTimeoutMs)
 	}
 	res.Secs = time.Since(t0).Seconds()
@@ -415,6 +428,13 @@ func dischargeAll(obls []*Obl, timeoutMs int) {
 		go func() {
 			defer wg.Done()
 			r := solve(o.query, timeoutMs, true)
+			if r.Status == "unknown" {
+				// proof search: case split on a small disjunctive hypothesis
+				if r2 := solveByCases(o.query, timeoutMs); r2 != nil {
+					r2.Secs += r.Secs
+					r = r2
+				}
+			}
 			o.Backend = r.Backend
 			o.Secs = r.Secs
 			o.Answers = r.Detail
@@ -520,6 +540,12 @@ func (fx *FuncCtx) run() {
 		switch ex.kind {
 		case "panic":
 			what := "panic(" + fx.src(ex.pexpr) + ")"
+			if len(con.PanicEnsures) > 0 {
+				penv := &specEnv{fx: fx, cur: ex.st, old: fx.entry, binds: map[string]sval{}, entryParams: true}
+				for _, pe := range con.PanicEnsures {
+					fx.obligeSplit(ex.st, "panic.post", fx.specBool(penv, pe.Expr), ex.node, what+" only if "+pe.Src)
+				}
+			}
 			switch {
 			case con.PanicsIff && fx.validT != nil:
 				fx.oblige(ex.st, "panic.none", Not(*fx.validT), ex.node, what)
@@ -598,4 +624,99 @@ func (fx *FuncCtx) refFacts(st *State, v Val) {
 			fx.refFacts(st, f)
 		}
 	}
+}
+
+// solveByCases retries an undecided query by splitting on one disjunctive
+// hypothesis (an asserted (or ...) or the negation of a defined conjunction):
+// the query is unsat iff it is unsat under every disjunct.
+func solveByCases(query string, timeoutMs int) *SolveResult {
+	lines := strings.Split(query, "\n")
+	defs := map[string]*sx{}
+	for _, l := range lines {
+		if strings.HasPrefix(l, "(define-fun ") && strings.Contains(l, " () Bool ") {
+			n := parseSx(l)
+			if len(n.kids) == 5 {
+				defs[n.kids[1].atom] = n.kids[4]
+			}
+		}
+	}
+	type split struct {
+		line  int
+		cases []string
+	}
+	var splits []split
+	for i, l := range lines {
+		if !strings.HasPrefix(l, "(assert ") || len(l) > 3000 {
+			continue
+		}
+		n := parseSx(l)
+		if len(n.kids) != 2 {
+			continue
+		}
+		b := n.kids[1]
+		var cases []string
+		flat := func(n *sx, op string) []*sx {
+			var out []*sx
+			var rec func(m *sx)
+			rec = func(m *sx) {
+				if m.isApp(op) {
+					for _, k := range m.kids[1:] {
+						rec(k)
+					}
+					return
+				}
+				out = append(out, m)
+			}
+			rec(n)
+			return out
+		}
+		switch {
+		case b.isApp("or"):
+			for _, k := range flat(b, "or") {
+				cases = append(cases, k.String())
+			}
+		case b.isApp("not") && len(b.kids) == 2 && b.kids[1].kids == nil:
+			if d, ok := defs[b.kids[1].atom]; ok && d.isApp("and") {
+				for _, k := range flat(d, "and") {
+					cases = append(cases, "(not "+k.String()+")")
+				}
+			}
+		case b.isApp("not") && len(b.kids) == 2 && b.kids[1].isApp("and"):
+			for _, k := range flat(b.kids[1], "and") {
+				cases = append(cases, "(not "+k.String()+")")
+			}
+		}
+		if len(cases) < 2 || len(cases) > 5 {
+			cases = nil
+		}
+		if cases != nil {
+			splits = append(splits, split{i, cases})
+		}
+	}
+	if len(splits) > 8 {
+		splits = splits[len(splits)-8:] // the most recent branch conditions are the most relevant
+	}
+	for si := len(splits) - 1; si >= 0; si-- {
+		sp := splits[si]
+		all := true
+		var secs float64
+		backend := ""
+		for _, c := range sp.cases {
+			q := strings.Join(lines[:sp.line], "\n") + "\n(assert " + c + ")\n" + strings.Join(lines[sp.line+1:], "\n")
+			r := solve(q, timeoutMs/2, false)
+			secs += r.Secs
+			if os.Getenv("GOVC_DEBUG") != "" {
+				fmt.Printf("  [cases] line %d case %.80s -> %s %v\n", sp.line, c, r.Status, r.Detail)
+			}
+			if r.Status != "unsat" {
+				all = false
+				break
+			}
+			backend = r.Backend
+		}
+		if all {
+			return &SolveResult{Status: "unsat", Backend: backend + "+cases", Secs: secs, Detail: map[string]string{backend + "+cases": fmt.Sprintf("unsat in each of %d cases of a disjunctive hypothesis", len(sp.cases))}}
+		}
+	}
+	return nil
 }
